@@ -1,6 +1,6 @@
 (** C06 — a value edit discards exactly its dependents; inputs persist. *)
 From Coq Require Import List ZArith Bool.
-From MX Require Import Exec.Model Exec.Spec Exec.Sim Exec.Graph Exec.Cover Exec.Quiet Exec.Edits Exec.Edits3 Exec.Results Exec.Top.
+From MX Require Import Exec.Model Exec.Spec Exec.Sim Exec.Graph Exec.Cover Exec.Quiet Exec.Edits Exec.Edits3 Exec.Results Exec.Top Exec.Rg Exec.Diff.
 Import ListNotations.
 
 (** Clearing (the first half of assigning / overwriting) the value of element
@@ -54,9 +54,23 @@ Theorem C06_clear_keeps_inputs : forall st c m,
 Proof. exact clear_keeps_inputs. Qed.
 Print Assumptions C06_clear_keeps_inputs.
 
+(** Values assigned by the user survive everything but an edit of their own
+    element or a reset of their own cells: after ANY operation — evaluation,
+    failed evaluation, assignment or clearing of another element, clear(),
+    formula or flag change of another cells, change of any reference, with
+    either setting of the recalculation option — the assigned values are
+    exactly [ainp_step … o] of the assigned values before: [OpSetValue j v]
+    (when accepted) sets j, [OpClearAt j] removes j, clear_all / a formula
+    change / a flag change of cells c remove those of c, nothing else changes
+    anything.  (False of the pinned code for reference changes: D40, fixed.) *)
+Theorem C06_inputs_change_only_by_their_own_edits : forall fuel st o x st',
+  step fuel st o = (x, st') -> x <> OFuel -> Quiet st -> RgOK st ->
+  defs_of st' = adefs (defs_of st) o /\ forall i, ainp st' i = ainp_step (defs_of st) o (ainp st) i.
+Proof. exact step_abs. Qed.
+Print Assumptions C06_inputs_change_only_by_their_own_edits.
+
 (** NOT proved: that no *spurious* edge exists (exactness in the other
-    direction: graph descendants = true dependents, not a superset); inputs
-    surviving reference changes (reference edits are outside [op_ok]).
+    direction: graph descendants = true dependents, not a superset).
     Non-vacuity: chain c0 <- c1 <- c2, overwrite c0. *)
 Definition ex6_cells : list (cid * cell) :=
   [ (0, mkCell [SAssign (EConst (VInt 1))] 0 [] true false 0);
